@@ -202,10 +202,16 @@ def canon_status(ds):
     return ds.Status if "Status" in ds else None
 
 
-def start(assoc, svc):
+def start(assoc, svc, model=None):
     """Issue the request of a multi-response call; returns the generator."""
     S = _state
     sc = S["sc"]
+    if model is not None:
+        if svc in ("find", "findrq"):
+            return assoc.send_c_find(S["ident"], model)
+        if svc == "get":
+            return assoc.send_c_get(S["ident"], model)
+        return assoc.send_c_move(S["ident"], "DEST", model)
     if svc == "find":
         return assoc.send_c_find(S["ident"], sc.PatientRootQueryRetrieveInformationModelFind)
     if svc == "findrq":
@@ -247,7 +253,7 @@ REQUEST_CLASS = {
 }
 
 
-def run(svc, script, cancel_at=()):
+def run(svc, script, cancel_at=(), model=None):
     """Run one SCU call of the real code against a scripted peer.
 
     Returns a dict: yields [(status|None, ident, lockHeld, paused)], aborts, recvs, store_rsps,
@@ -258,11 +264,17 @@ def run(svc, script, cancel_at=()):
     """
     S = setup()
     a = new_assoc(script)
+    if model is not None:
+        # the query/retrieve information model of the request, accepted as context 21
+        cx = S["build_context"](model, S["ts"])
+        cx.context_id, cx.result, cx._as_scu, cx._as_scp = 21, 0, True, False
+        a._accepted_cx[21] = cx
     out = dict(yields=[], raised=None, ret=None, overrun=False, cancels_ok=True, paused_after_send=None)
+    kept = []  # the (status, identifier) objects as handed out, for the "still what it was" check at the end
     C_CANCEL = S["dp"].C_CANCEL
     try:
         if svc in MULTI:
-            gen = start(a, svc)
+            gen = start(a, svc, model)
             out["paused_after_send"] = not a._reactor_checkpoint.is_set()
             limit = 2 * len(script) + 3
             for i in range(limit + 1):
@@ -277,6 +289,7 @@ def run(svc, script, cancel_at=()):
                 out["yields"].append(
                     (canon_status(status), canon_ds(ident), lock_held(a), not a._reactor_checkpoint.is_set())
                 )
+                kept.append((status, ident))
                 if i in cancel_at and out["yields"][-1][3]:  # operation still going on
                     n = len(a.dimse.sent)
                     a.send_c_cancel(1, a.dimse.sent[0][0])
@@ -297,6 +310,11 @@ def run(svc, script, cancel_at=()):
     out["recvs"] = a.dimse.gets
     out["store_rsps"] = [p.Status for _, p in sent[1:] if type(p).__name__ == "C_STORE"]
     out["other_sent"] = [type(p).__name__ for _, p in sent[1:] if type(p).__name__ not in ("C_STORE", "C_CANCEL")]
+    # a caller may keep what it was given (list(assoc.send_c_get(...))): every response must still be what it was when
+    # it was handed out, and two responses are never the same object
+    out["kept_changed"] = [i for i, ((st, idt), y) in enumerate(zip(kept, out["yields"])) if (canon_status(st), canon_ds(idt)) != (y[0], y[1])]
+    ids = [id(st) for st, _ in kept if st is not None]
+    out["kept_aliased"] = len(ids) != len(set(ids))
     out["ckpt"] = a._reactor_checkpoint.is_set()
     out["lock"] = lock_held(a)
     out["consumed"] = a.dimse.pos
